@@ -49,7 +49,7 @@ class Check:
         big = tier == "thorough" and rng.random() < 0.1
         world = gen.gen_tree(rng, tops, max_entries=rng.choice([3, 8, 15, 30, 45]) if not big else rng.choice([120, 250]), max_depth=rng.choice([2, 3, 5, 6]) if not big else rng.choice([3, 10]),
                              kinds={"file": 10, "dir": 5, "symlink": 1.5, "fifo": 0.4, "sock": 0.3, "chr": 0.2, "blk": 0.2},
-                             adversarial=rng.choice([0, 0.15, 0.5]))
+                             adversarial=rng.choice([0, 0.15, 0.5]), nonutf8=rng.choice([0, 0, 0, 0.2]))
         dirs = [n["path"] for n in world["nodes"] if n["type"] == "dir"]
         roots = []
         maxlvl = max([n["path"].count("/") for n in world["nodes"]] + [1])
@@ -201,8 +201,10 @@ class Check:
                     exp = {}
                     for rel, node, lvl in walk:
                         if gen.in_window(lvl, r["mind"], r["maxd"]):
-                            exp[(sp + "/" + rel).encode("utf-8")] = lvl
-                    expected.update(exp.keys())
+                            # fselect prints names lossily: every invalid byte becomes U+FFFD
+                            key = (sp + "/" + rel).encode("utf-8", "surrogateescape").decode("utf-8", "replace").encode("utf-8")
+                            exp[key] = lvl
+                            expected[key] += 1
                     per_root.append((sp, r, exp))
                 got = collections.Counter(rows)
                 multisets[flip] = got
@@ -224,8 +226,9 @@ class Check:
                                             "extra": [m.decode("utf-8", "replace") for m in extra], "rows": len(rows), "expected": sum(expected.values()),
                                             "stderr": res.stderr[:300].decode("utf-8", "replace"), "status": res.status}))
                     continue
-                # order clauses, per root
-                for sp, r, exp in per_root:
+                # order clauses, per root (not asserted when lossy printing makes rows of different entries identical)
+                lossy = any(0xDC80 <= ord(ch) <= 0xDCFF for n in world["nodes"] for ch in n["path"])
+                for sp, r, exp in ([] if lossy else per_root):
                     mine = [x for x in rows if x in exp]
                     mode = self.mode_of(r, flip)
                     if mode == "bfs":
